@@ -16,7 +16,7 @@
 From BT Require Import Base.Util Base.Float Model.RTree Model.BBIFile Model.BigWigWrite Model.Pipeline
   Proofs.PipelineInv Proofs.PipelineThms Proofs.PipelineConv Proofs.PipelineLanes.
 From BT Require Model.TempBuf Model.BigBedWrite Proofs.BedZoomFit Proofs.PipelineBed.
-From BT Require Import Model.PipelineConc Proofs.PipelineRefine Proofs.PipelineLanesProgress
+From BT Require Import Model.PipelineConc Proofs.PipelineRefine Proofs.PipelineRefineProgress Proofs.PipelineLanesProgress
   Model.PipelineZoom Proofs.PipelineZoom Proofs.PipelineZoomProgress Model.PipelineSeq Proofs.PipelineSeq.
 
 (* FIFO order.  In every reachable state, for every completion order of the encode tasks, what the
@@ -250,6 +250,45 @@ Theorem C11_splice_concrete : forall g np pre Ss opss sched, g_fifo g = true ->
      sp_file (cabs s) = seq_file pre Ss /\ final_index (Nlen pre) (cabs s) = seq_index pre Ss).
 Proof. exact pipeline_splice_concrete. Qed.
 Print Assumptions C11_splice_concrete.
+
+(* The concrete machine has no deadlock either (simulation alone would not give that): every reachable state
+   that is not terminal has an enabled step - the abstract "loop ends, writer dropped" is matched by write_data
+   leaving its loop, the BufWriter's remaining write() calls (it holds exactly their bytes) and the Drop. *)
+Theorem C11_concrete_progress : forall g np pre Ss opss sched, g_fifo g = true -> (1 <= g_cap g)%nat -> (1 <= g_win g)%nat ->
+  Forall2 (fun ops S => TempBuf.written ops = data_bytes S) opss Ss ->
+  let s := crun g sched (cinit np pre Ss opss) in
+  cterminal s = false -> exists t s', cstep g t s = Some s'.
+Proof. exact pipeline_concrete_progress. Qed.
+Print Assumptions C11_concrete_progress.
+
+(* every effective step decreases a measure, and every schedule prefix can be completed into a finishing run *)
+Theorem C11_concrete_completion : forall g np pre Ss opss sched, g_fifo g = true -> (1 <= g_cap g)%nat -> (1 <= g_win g)%nat ->
+  Forall2 (fun ops S => TempBuf.written ops = data_bytes S) opss Ss ->
+  (forall t s', cstep g t (crun g sched (cinit np pre Ss opss)) = Some s' ->
+                (conc_measure s' < conc_measure (crun g sched (cinit np pre Ss opss)))%nat) /\
+  exists more, cterminal (crun g (sched ++ more) (cinit np pre Ss opss)) = true.
+Proof. exact pipeline_concrete_completion. Qed.
+Print Assumptions C11_concrete_completion.
+
+(* Inside await_real_file the splice task's next shared access is always enabled: [closed] is set when it takes
+   it, the Condvar wait of the real buffer machine is never entered (C11_await_never_blocks, now at the level
+   of the buffer's own transitions). *)
+Theorem C11_concrete_await_never_blocks : forall g np pre Ss opss sched, g_fifo g = true ->
+  Forall2 (fun ops S => TempBuf.written ops = data_bytes S) opss Ss ->
+  let s := crun g sched (cinit np pre Ss opss) in
+  sp_pc (cabs s) = SAwaitFile -> exists s', cstep g CSplice s = Some s'.
+Proof. exact pipeline_concrete_await_never_blocks. Qed.
+Print Assumptions C11_concrete_await_never_blocks.
+
+(* the BufWriter's bytes are accounted for at every moment *)
+Theorem C11_concrete_bytes : forall g np pre Ss opss sched, g_fifo g = true ->
+  Forall2 (fun ops S => TempBuf.written ops = data_bytes S) opss Ss ->
+  let s := crun g sched (cinit np pre Ss opss) in
+  forall k c x, nth_error (p_chroms (cabs s)) k = Some c -> nth_error (k_x s) k = Some x ->
+    exists fwd, fwd ++ x_bw x = data_bytes (c_out c) /\
+                fwd ++ TempBuf.written (TempBuf.p_todo (x_buf x)) = data_bytes (nth k Ss []).
+Proof. exact pipeline_concrete_bytes. Qed.
+Print Assumptions C11_concrete_bytes.
 
 (* ---------------------------------------------------------------- the lanes together: no deadlock across lanes
    The multi-lane machine (data region + zoom levels; the main thread starts / advances a chromosome in all
@@ -605,3 +644,12 @@ Proof.
   split; [repeat constructor|].
   intros l k Hl. destruct l as [|[|l]]; [| |cbn in Hl; lia]; destruct k as [|[|k]]; try reflexivity; destruct k; reflexivity.
 Qed.
+
+(* concrete machine: a reachable non-terminal state, and one inside await_real_file ([closed] taken, mailbox not yet
+   swapped) - the hypotheses of C11_concrete_progress / C11_concrete_await_never_blocks *)
+Example C11_example_concrete_nonterminal :
+  cterminal (crun ex_g (firstn 27 ex_csched) (cinit 0 [100; 101] ex_Ss ex_opss)) = false /\
+  (let s := crun ex_g (firstn 43 ex_csched) (cinit 0 [100; 101] ex_Ss ex_opss) in
+   sp_pc (cabs s) = SAwaitFile /\
+   map (fun x => TempBuf.c_mid (x_buf x)) (firstn 1 (k_x s)) = [TempBuf.CAwaitTaken (TempBuf.Real [100; 101; 1; 2; 3; 4; 5; 6])]).
+Proof. vm_compute. repeat split. Qed.
